@@ -186,9 +186,6 @@ def AdjLine (c : ℕ) (l : Line) : Prop :=
   ∃ it p, l.item = some it ∧ it.cur = "" ∧ it.price = some p ∧ l.breakdown = [] ∧
     (∀ d ∈ l.discounts, AdjOk c d) ∧ (∀ d ∈ l.charges, AdjOk c d)
 
-/-- weight of a line: one rounding for price × quantity, and for every discount / charge its own
-rounding plus the propagated error of the line sum (percentage ≤ 100 %) -/
-def lineW (l : Line) : ℕ := 1 + 2 * (l.discounts.length + l.charges.length)
 
 /-- what `calcLine` guarantees for a line of the class, against the exact line total -/
 def LineRel (cur : String) (rates : List XRate) (c : ℕ) (l l' : Line) : Prop :=
@@ -287,8 +284,6 @@ theorem calcLines_rel (cur : String) (c : ℕ) (rates : List XRate) (ls ls' : Li
         exact List.Forall₂.cons (adjLine_total cur c rates l l' (hs l (by simp)) h1)
           (ih ls'' (fun x hx => hs x (by simp [hx])) h2)
 
-/-- total weight of the lines -/
-def sumW (ls : List Line) : ℕ := (ls.map lineW).sum
 
 /-- the working document sum against the exact one -/
 theorem rel_sum (cur : String) (c : ℕ) (rates : List XRate) (ls ls' : List Line)
@@ -588,10 +583,6 @@ structure DocA (d : Doc) : Prop where
   discounts : ∀ x ∈ d.discounts, DocAdjOk d.c x
   charges : ∀ x ∈ d.charges, DocAdjOk d.c x
 
-/-- weight of `total` before the included tax is taken out: the lines' weight carried through
-1 − Σ discount % + Σ charge %, plus one rounding per document discount / charge -/
-def totalW (d : Doc) : ℕ :=
-  sumW d.lines * (1 + d.discounts.length + d.charges.length) + d.discounts.length + d.charges.length
 
 /-- the sum alone needs nothing about the document-level discounts and charges -/
 theorem pre_sum_spec (d : Doc) (p : Pre) (hr : d.rule = .precise) (hlines : ∀ l ∈ d.lines, AdjLine d.c l)
@@ -744,9 +735,6 @@ def comboU (t : ℚ) (cb : Combo) : ℚ :=
 /-- … signed: retained taxes are subtracted -/
 def comboQ (t : ℚ) (cb : Combo) : ℚ := if cb.retained then -(comboU t cb) else comboU t cb
 
-/-- weight of a combo: its percentage, and its surcharge when it has one -/
-def cW (cb : Combo) : ℕ := if cb.surcharge.isSome then 2 else 1
-def comboW (taxes : List Combo) : ℕ := (taxes.map cW).sum
 
 /-- the exact tax of a row with total `t` (prices not including tax), as `Spec.C01.exactQ` has it -/
 def rowQ (t : ℚ) (taxes : List Combo) : ℚ := (Spec.C01.rowTaxQ none t taxes).1
@@ -967,9 +955,6 @@ theorem baseRateTotals_w (c E : ℕ) (rows : List Row) (cats : List CatTotal)
 theorem rateAmounts_percent (rt : RateTotal) (c : ℕ) : (rateAmounts exactOps rt c).percent = rt.percent := by
   unfold rateAmounts; split <;> simp_all
 
-/-- weight of a rate group: its amount, and its surcharge when it has one -/
-def rateW (rt : RateTotal) : ℕ := if rt.surcharge.isSome then 2 else 1
-def ratesW (rts : List RateTotal) : ℕ := (rts.map rateW).sum
 
 theorem rateAmounts_rateW (rt : RateTotal) (c : ℕ) : rateW (rateAmounts exactOps rt c) = rateW rt := by
   unfold rateW rateAmounts
@@ -1185,9 +1170,6 @@ theorem finalSum_exp_le (c E : ℕ) (cats : List CatTotal) (hc : c ≤ E)
       cases ct.surcharge <;> split <;> simp only [sub_exp, add_exp, up_exp] <;> omega
   exact key cats ⟨0, c⟩ hc h
 
-/-- number of rounding points of a tax summary: one per rate group, one more when the group has a
-surcharge (without surcharges: the number of rate groups) -/
-def groupsOf (cats : List CatTotal) : ℕ := (cats.map (fun ct => ratesW ct.rates)).sum
 
 theorem cats_w (c E : ℕ) (cats : List CatTotal) (hinv : CatsInv ret c E cats) (hc : c ≤ E) :
     (finalSum exactOps .precise c (cats.map (catAmounts exactOps .precise c))).exp ≤ E ∧
@@ -1348,13 +1330,6 @@ structure DocT (ret : String → Bool) (d : Doc) : Prop where
   discTaxes : ∀ x ∈ d.discounts, ∀ cb ∈ x.taxes, ComboOk ret cb
   chTaxes : ∀ x ∈ d.charges, ∀ cb ∈ x.taxes, ComboOk ret cb
 
-/-- error carried into the tax by the line totals: weight of the line × number of its combos -/
-def linesTaxW (ls : List Line) : ℕ := (ls.map (fun l => lineW l * comboW l.taxes)).sum
-/-- … and by the document discounts / charges: (own rounding + weight of the sum) × combos -/
-def adjTaxW (W : ℕ) (xs : List DocAdj) : ℕ := (xs.map (fun x => (1 + W) * comboW x.taxes)).sum
-/-- weight of the tax: one rounding per rate group (`G` groups) plus the carried errors -/
-def taxW (d : Doc) (G : ℕ) : ℕ :=
-  G + linesTaxW d.lines + adjTaxW (sumW d.lines) d.discounts + adjTaxW (sumW d.lines) d.charges
 
 theorem exactQ_tax (d : Doc) (h : d.includes = none) :
     (Spec.C01.exactQ d).tax =
@@ -1615,14 +1590,6 @@ structure DocC (ret : String → Bool) (d : Doc) : Prop where
   rounding : ∀ x, d.rounding = some x → x.exp ≤ d.c + 2
   advances : ∀ a ∈ d.advances, AdvOk d.c a
 
-/-- weight of the discount / charge total: per row its own rounding plus the weight of the sum -/
-def adjW (W k : ℕ) : ℕ := k * (1 + W)
-/-- weight of total-with-tax and payable -/
-def twtW (d : Doc) (G : ℕ) : ℕ := totalW d + taxW d G
-/-- weight of the advances total: per advance one rounding plus the weight of total-with-tax -/
-def advW (d : Doc) (G : ℕ) : ℕ := d.advances.length * (1 + twtW d G)
-/-- weight of the amount due -/
-def dueW (d : Doc) (G : ℕ) : ℕ := twtW d G + advW d G
 
 theorem adjTotal_err (sumR S P D kd W h : ℚ) (hS : |sumR - S| ≤ W * h) (hD : |D - sumR * P| ≤ kd * h)
     (hP : |P| ≤ kd) (hh : 0 ≤ h) (hW : 0 ≤ W) : |D - S * P| ≤ kd * (1 + W) * h := by
@@ -1786,11 +1753,6 @@ theorem working_spec (d : Doc) (p : Pre) (tx : TaxTotal) (hd : DocC ret d) (hpre
     have := hPe.2
     unfold dueW; push_cast; linarith
 
-/-- number of rate groups of the tax summary shown with the totals -/
-def groupsT (t : Totals) : ℕ :=
-  match t.taxes with
-  | some tx => groupsOf tx.cats
-  | none => 0
 
 theorem groupsT_round (d : Doc) (p : Pre) (tx : TaxTotal) :
     groupsT (roundTotals exactOps d.c (rawTotals exactOps d p tx)) = groupsOf tx.cats := by
@@ -1951,6 +1913,117 @@ theorem payment_rows_shown (d : Doc) (out : Out) (t : Totals) (hd : DocC ret d) 
     refine ⟨w, hw1, ?_⟩
     have h2 : halfUlp (rawTotals exactOps d p tx).payable.exp ≤ halfUlp (d.c + 2) := by rw [hpe]; exact hh
     linarith
+
+/-! ## the decided class is the proved class -/
+
+theorem pctLe1_sound (p : Pct) (h : pctLe1 p = true) : |p.amount.toRat| ≤ 1 := by
+  unfold pctLe1 at h
+  have hn : p.amount.value.natAbs ≤ 10 ^ p.amount.exp := of_decide_eq_true h
+  have hp := p10q_pos p.amount.exp
+  unfold Amount.toRat
+  rw [abs_div, abs_of_pos hp, div_le_one hp]
+  have h1 : |p.amount.value| ≤ pow10 p.amount.exp := by
+    unfold pow10
+    have h2 : ((p.amount.value.natAbs : ℕ) : ℤ) ≤ ((10 ^ p.amount.exp : ℕ) : ℤ) := by exact_mod_cast hn
+    rw [Int.natCast_natAbs] at h2
+    push_cast at h2
+    exact h2
+  rw [← Int.cast_abs]
+  exact_mod_cast h1
+
+theorem adjOkB_sound (c : ℕ) (d : LineAdj) (h : adjOkB c d = true) : AdjOk c d := by
+  unfold adjOkB at h
+  rw [Bool.and_eq_true] at h
+  obtain ⟨hr, hc⟩ := h
+  have hrate : d.rate = none := by simpa using hr
+  refine ⟨hrate, ?_⟩
+  cases hp : d.percent with
+  | none =>
+    simp only [hp] at hc
+    exact Or.inr ⟨Or.inl rfl, of_decide_eq_true hc⟩
+  | some p =>
+    simp only [hp] at hc
+    by_cases hz : pctIsZero p = true
+    · simp only [hz, if_true] at hc
+      exact Or.inr ⟨Or.inr ⟨p, rfl, hz⟩, of_decide_eq_true hc⟩
+    · have hz' : pctIsZero p = false := by simpa using hz
+      simp only [hz', Bool.false_eq_true, if_false, Bool.and_eq_true] at hc
+      refine Or.inl ⟨p, rfl, hz', pctLe1_sound p hc.1, ?_⟩
+      cases hb : d.base with
+      | none => exact Or.inl rfl
+      | some b =>
+        have h2 := hc.2
+        simp only [hb] at h2
+        exact Or.inr ⟨b, rfl, of_decide_eq_true h2⟩
+
+theorem docAdjOkB_sound (c : ℕ) (x : DocAdj) (h : docAdjOkB c x = true) : DocAdjOk c x := by
+  unfold docAdjOkB at h
+  cases hp : x.percent with
+  | none =>
+    simp only [hp] at h
+    exact Or.inr ⟨Or.inl hp, of_decide_eq_true h⟩
+  | some p =>
+    simp only [hp] at h
+    by_cases hz : pctIsZero p = true
+    · simp only [hz, if_true] at h
+      exact Or.inr ⟨Or.inr ⟨p, hp, hz⟩, of_decide_eq_true h⟩
+    · have hz' : pctIsZero p = false := by simpa using hz
+      simp only [hz', Bool.false_eq_true, if_false, Bool.and_eq_true] at h
+      refine Or.inl ⟨p, hp, hz', pctLe1_sound p h.1, ?_⟩
+      cases hb : x.base with
+      | none => exact Or.inl rfl
+      | some b =>
+        have h2 := h.2
+        simp only [hb] at h2
+        exact Or.inr ⟨b, rfl, of_decide_eq_true h2⟩
+
+theorem adjLineB_sound (c : ℕ) (l : Line) (h : adjLineB c l = true) : AdjLine c l := by
+  unfold adjLineB at h
+  cases hit : l.item with
+  | none => simp [hit] at h
+  | some it =>
+    simp only [hit, Bool.and_eq_true, List.all_eq_true] at h
+    obtain ⟨⟨⟨⟨h1, h2⟩, h3⟩, h4⟩, h5⟩ := h
+    obtain ⟨p, hp⟩ := Option.isSome_iff_exists.mp h2
+    exact ⟨it, p, hit, by simpa using h1, hp, by simpa using h3,
+      fun d hd => adjOkB_sound c d (h4 d hd), fun d hd => adjOkB_sound c d (h5 d hd)⟩
+
+theorem comboOkB_sound (ret : String → Bool) (cb : Combo) (h : comboOkB ret cb = true) : ComboOk ret cb := by
+  unfold comboOkB at h
+  simp only [Bool.and_eq_true] at h
+  obtain ⟨⟨h1, h2⟩, h3⟩ := h
+  refine ⟨by simpa using h1, ?_, ?_⟩
+  · intro p hp; simp only [hp] at h2; exact pctLe1_sound p h2
+  · intro sp hs; simp only [hs] at h3; exact pctLe1_sound sp h3
+
+theorem advOkB_sound (c : ℕ) (a : Advance) (h : advOkB c a = true) : AdvOk c a := by
+  unfold advOkB at h
+  cases hp : a.percent with
+  | none => simp only [hp] at h; exact Or.inr ⟨hp, of_decide_eq_true h⟩
+  | some p => simp only [hp] at h; exact Or.inl ⟨p, hp, pctLe1_sound p h⟩
+
+/-- **the decided class is the proved class** -/
+theorem inDocC_sound (d : Doc) (h : inDocC d = true) : DocC (retOf d) d := by
+  unfold inDocC at h
+  simp only [Bool.and_eq_true, List.all_eq_true] at h
+  obtain ⟨⟨⟨⟨⟨⟨⟨⟨⟨⟨h1, h2⟩, h3⟩, h4⟩, h5⟩, h6⟩, h7⟩, h8⟩, h9⟩, h10⟩, h11⟩ := h
+  refine ⟨⟨⟨by simpa using h1, ?_, fun l hl => adjLineB_sound d.c l (h3 l hl),
+      fun x hx => docAdjOkB_sound d.c x (h4 x hx), fun x hx => docAdjOkB_sound d.c x (h5 x hx)⟩,
+    by simpa using h6,
+    fun l hl cb hcb => comboOkB_sound _ cb (h7 l hl cb hcb),
+    fun x hx cb hcb => comboOkB_sound _ cb (h8 x hx cb hcb),
+    fun x hx cb hcb => comboOkB_sound _ cb (h9 x hx cb hcb)⟩, ?_,
+    fun a ha => advOkB_sound d.c a (h11 a ha)⟩
+  · intro hne; simp [hne] at h2
+  · intro x hx
+    simp only [hx] at h10
+    exact of_decide_eq_true h10
+
+theorem docWeight_eq (d : Doc) (out : Out) (t : Totals) (hcalc : calculate exactOps d = .ok out)
+    (ht : out.totals = some t) : docWeight d = dueW d (groupsT t) := by
+  unfold docWeight
+  rw [hcalc]
+  simp only [ht]
 
 end Err
 end Calc
